@@ -418,7 +418,13 @@ class Driver:
             # old value when the sequence is empty) -- such a loop is not "without effect"
             tnames = {n.id for n in ast.walk(st.target) if isinstance(n, ast.Name)}
             inside = {id(n) for n in ast.walk(st)}
-            binds = any(t in s.env for t in tnames) or any(isinstance(n, ast.Name) and n.id in tnames and isinstance(n.ctx, ast.Load) and id(n) not in inside and getattr(n, "lineno", 0) > st.lineno for n in ast.walk(func.node))
+            rebound = set()
+            for n in ast.walk(func.node):
+                if isinstance(n, (ast.ListComp, ast.SetComp, ast.DictComp, ast.GeneratorExp)) and any(isinstance(x, ast.Name) and x.id in tnames for g in n.generators for x in ast.walk(g.target)):
+                    rebound |= {id(x) for x in ast.walk(n)}
+                if isinstance(n, ast.For) and n is not st and getattr(n, "lineno", 0) > st.lineno and any(isinstance(x, ast.Name) and x.id in tnames for x in ast.walk(n.target)):
+                    rebound |= {id(x) for x in ast.walk(n)}
+            binds = any(t in s.env for t in tnames) or any(isinstance(n, ast.Name) and n.id in tnames and isinstance(n.ctx, ast.Load) and id(n) not in inside and id(n) not in rebound and getattr(n, "lineno", 0) > st.lineno for n in ast.walk(func.node))
             if not binds and (_effect_free(st.body) or _flush_loop(st, s)):
                 return [s]
             if (not st.orelse and isinstance(st.target, ast.Tuple) and len(st.target.elts) == 2 and all(isinstance(e, ast.Name) for e in st.target.elts)
@@ -452,19 +458,20 @@ class Driver:
                     and ((isinstance(it.func, ast.Name) and it.func.id == "range") or (isinstance(it.func, ast.Attribute) and it.func.attr == "arange"))
                     and not any(isinstance(n, ast.Name) and n.id == st.target.id and isinstance(n.ctx, ast.Store) for b in st.body for n in ast.walk(b))
                     and not any(isinstance(n, ast.Continue) for b in st.body for n in ast.walk(b))):
+                # Python's semantics: the target is assigned at the START of each iteration from a hidden counter -- after the loop
+                # it holds the LAST value taken (N - 1 when nothing breaks; untouched when N = 0), not N
                 self._forvar = getattr(self, "_forvar", 0) + 1
                 nv = "__forn%d" % self._forvar
+                cv = "__forc%d" % self._forvar
                 tv = st.target.id
-                mod = ast.parse("%s = 0\n%s = 0\nwhile %s < %s:\n    pass\n    %s += 1\n" % (nv, tv, tv, nv, tv))
+                mod = ast.parse("%s = 0\n%s = 0\nwhile %s < %s:\n    %s = %s\n    pass\n    %s += 1\n" % (nv, cv, cv, nv, tv, cv, cv))
                 mod.body[0].value = it.args[0]
-                for n in ast.walk(mod):
-                    if not hasattr(n, "lineno") or n is mod.body[0].value:
-                        pass
                 for n in ast.walk(mod):
                     if n is not it.args[0] and not any(n is x for x in ast.walk(it.args[0])):
                         ast.copy_location(n, st)
                 wl = mod.body[2]
-                wl.body = list(st.body) + [wl.body[1]]
+                # `break` leaves before the increment -- the counter is not read afterwards
+                wl.body = [wl.body[0]] + list(st.body) + [wl.body[2]]
                 return self.block(mod.body, [s], func)
             raise AnalysisError("%s:%d unsupported for loop" % (func.qualname, st.lineno))
         raise AnalysisError("%s:%d unsupported statement %s" % (func.qualname, st.lineno, type(st).__name__))
